@@ -110,6 +110,22 @@ def fragment_source(parts: list[ast.AST]) -> list[str | None]:
             out.append(a.value)
         elif isinstance(a, ast.BinOp) and isinstance(a.op, ast.Mod) and isinstance(a.left, ast.Constant) and isinstance(a.left.value, str):
             out.append(a.left.value.replace("%r", "'X'").replace("'%s", "'X").replace("%s", "X"))
+        elif isinstance(a, ast.JoinedStr):
+            # f"...{x!r}..." / f"...'{x}-worker'": the same holes
+            txt = ""
+            for v in a.values:
+                if isinstance(v, ast.Constant) and isinstance(v.value, str):
+                    txt += v.value
+                elif isinstance(v, ast.FormattedValue) and v.format_spec is None:
+                    txt += "'X'" if v.conversion == ord("r") else "X"
+                else:
+                    txt = None  # type: ignore[assignment]
+                    break
+            out.append(txt)
+        elif isinstance(a, ast.Call) and isinstance(a.func, ast.Attribute) and a.func.attr == "format" and isinstance(a.func.value, ast.Constant) \
+                and isinstance(a.func.value.value, str) and not a.keywords:
+            import re as _re
+            out.append(_re.sub(r"\{\d*!r\}", "'X'", _re.sub(r"\{\d*(!s)?\}", "X", a.func.value.value).replace("{{", "{").replace("}}", "}")))
         else:
             out.append(None)
     return out
